@@ -199,7 +199,7 @@ class DtdMapper:
             cls.build_element(target, content.name, restrictions)
         elif content_type == DtdContentType.SEQ:
             params = cls.build_sequence_occurs(content.occur)
-            params.update(**kwargs)
+            cls.merge_occurs(params, kwargs)
             cls.build_content_tree(target, content, **params)
         elif content_type == DtdContentType.OR:
             params = cls.build_occurs(content.occur)
@@ -209,7 +209,7 @@ class DtdMapper:
                     "min_occurs": 0,
                 }
             )
-            params.update(**kwargs)
+            cls.merge_occurs(params, kwargs)
             cls.build_content_tree(target, content, **params)
         else:  # content_type == DtdContentType.PCDATA:
             restrictions = cls.build_restrictions(content.occur, **kwargs)
@@ -284,9 +284,24 @@ class DtdMapper:
             The mapped restrictions instance.
         """
         params = cls.build_occurs(occur)
-        params.update(kwargs)
+        cls.merge_occurs(params, kwargs)
 
         return Restrictions(**params)
+
+    @classmethod
+    def merge_occurs(cls, params: dict, overrides: dict) -> dict:
+        """Merge the restrictions of the enclosing groups.
+
+        The restrictions of the enclosing group win, except that a group
+        which occurs once must not cap members that repeat, e.g. (a*|b)
+        """
+        for key, value in overrides.items():
+            if key == "max_occurs" and key in params:
+                params[key] = max(params[key], value)
+            else:
+                params[key] = value
+
+        return params
 
     @classmethod
     def build_element(cls, target: Class, name: str, restrictions: Restrictions):
